@@ -372,6 +372,7 @@ class SimNet:
         self._eph = 50000
         self.losable = losable
         self.default_route = 'refuse'
+        self.on_accept = None      # callback(conn, library-side transport) when a library listener accepts
         self._patched = None
         self.install()
         world.closers.append(self.uninstall)
@@ -482,6 +483,8 @@ class SimNet:
                 conn.ends[1] = stransport
                 conn.accepted = True
                 sprotocol.connection_made(stransport)
+                if self.on_accept is not None:
+                    self.on_accept(conn, stransport)
             self.world.post(EnvEvent('accept', f'accept:{conn.label}', accept, chan=(cid, 'accept'), holdable=False))
         return reader, writer
 
@@ -518,6 +521,8 @@ class SimNet:
             conn.ends[1] = stransport
             conn.accepted = True
             sprotocol.connection_made(stransport)
+            if self.on_accept is not None:
+                self.on_accept(conn, stransport)
         self.world.post(EnvEvent('accept', f'accept:{conn.label}', accept, chan=(cid, 'accept'), holdable=False))
         return end
 
